@@ -233,13 +233,21 @@ inductive Mode where
   | setter        -- setters.convert(inst, field, v) called directly
   deriving DecidableEq, Repr, FromJson, ToJson, Inhabited
 
-/-- one field of the class the converter is used in.  Every `shared` field is given THE SAME converter object
-    (the one built from the case's tree) and the input value; the other fields have their own plain converter
-    `fy` and are always given `ty`. -/
-structure Fld where
-  name   : String
-  shared : Bool
+/-- what a field of the class carries -/
+inductive FldKind where
+  | shared      -- THE converter object built from the case's tree (several fields may share it); given the input value
+  | own         -- a plain converter `fy` of its own
+  | validator   -- a validator only (no converter)
+  | plain       -- neither
   deriving DecidableEq, Repr, FromJson, ToJson, Inhabited
+
+/-- one field of the class the converter is used in -/
+structure Fld where
+  name : String
+  kind : FldKind
+  deriving DecidableEq, Repr, FromJson, ToJson, Inhabited
+
+def Fld.shared (f : Fld) : Bool := f.kind == .shared
 
 structure Case where
   tree   : ConvTree
@@ -251,45 +259,55 @@ structure Case where
   field  : String
   /-- the class's fields in definition order (init / assign / setter) -/
   flds   : List Fld
+  /-- assign: the class's `on_setattr` configuration runs `setters.convert` for its converter fields (class-level
+      `convert`, `[convert, validate]`, the `define` default, a pipe containing it, or the same on the fields);
+      false for `validate` alone or a custom hook alone -/
+  converts : Bool
   deriving Repr, FromJson, ToJson, Inhabited
 
 structure Obs where
   /-- `Res.render` of the outcomes.  standalone: one per input.  init: per input either the stored value of every
       sharing field (in field order) or the one exception `__init__` raised.  assign / setter: per input one
-      outcome per sharing field. -/
+      outcome per field of the class (every field is assigned to). -/
   results : List String
   trace   : List String     -- every user-function call, in order
   deriving DecidableEq, Repr, FromJson, ToJson, Inhabited
 
 def bgEvent : String := "fy(ty)"
 
-/-- the body of the generated `__init__`: the fields in definition order, each through its converter line;
-    the first exception ends it (and there is no instance to look at) -/
+/-- the body of the generated `__init__`: the fields in definition order, each through its converter line
+    (fields without a converter have none); the first exception ends it (and there is no instance to look at) -/
 def initFields (apply : String → Val → Trace → Out) : List Fld → Val → Trace → Option Exc × List String × Trace
   | [], _, tr => (none, [], tr)
   | f :: fs, v, tr =>
-    if f.shared then
+    match f.kind with
+    | .shared =>
       match apply f.name v tr with
       | (.ok r, tr') =>
         let rest := initFields apply fs v tr'
         (rest.1, (Res.ok r).render :: rest.2.1, rest.2.2)
       | (.exc e, tr') => (some e, [], tr')
-    else initFields apply fs v (tr ++ [bgEvent])
+    | .own => initFields apply fs v (tr ++ [bgEvent])
+    | _ => initFields apply fs v tr
 
 def initRun (apply : String → Val → Trace → Out) (fs : List Fld) (v : Val) (tr : Trace) : List String × Trace :=
   match initFields apply fs v tr with
   | (some e, _, tr') => ([(Res.exc e).render], tr')
   | (none, rs, tr') => (rs, tr')
 
-/-- one assignment (or one direct `setters.convert` call) per sharing field, each with its own outcome -/
-def assignFields (apply : String → Val → Trace → Out) : List Fld → Val → Trace → List String × Trace
+/-- the value is assigned to every field of the class in turn (or `setters.convert` is called for it), each with
+    its own outcome: a field with a converter is converted when the hook runs (`conv`), every other field — and
+    every field when no convert hook is configured — just stores the value, calling nothing -/
+def assignFields (conv : Bool) (apply : String → Val → Trace → Out) : List Fld → Val → Trace → List String × Trace
   | [], _, tr => ([], tr)
   | f :: fs, v, tr =>
-    if f.shared then
-      let r := apply f.name v tr
-      let rest := assignFields apply fs v r.2
-      (r.1.render :: rest.1, rest.2)
-    else assignFields apply fs v tr
+    let r : Out :=
+      match f.kind, conv with
+      | .shared, true => apply f.name v tr
+      | .own, true => callFn "fy" .term [v.render] tr
+      | _, _ => (.ok v, tr)
+    let rest := assignFields conv apply fs v r.2
+    (r.1.render :: rest.1, rest.2)
 
 /-- one input in the given mode -/
 def step (c : Case) (o : Obj) (v : Val) (tr : Trace) : List String × Trace :=
@@ -298,7 +316,9 @@ def step (c : Case) (o : Obj) (v : Val) (tr : Trace) : List String × Trace :=
     let r := applyObj o v c.inst c.field tr
     ([r.1.render], r.2)
   | .init | .initDefault => initRun (fun name v tr => initApply o v name tr) c.flds v tr
-  | .assign | .setter => assignFields (fun name v tr => applyObj o v selfText (fieldText name) tr) c.flds v tr
+  | .assign =>
+    assignFields c.converts (fun name v tr => applyObj o v selfText (fieldText name) tr) c.flds v tr
+  | .setter => assignFields true (fun name v tr => applyObj o v selfText (fieldText name) tr) c.flds v tr
 
 def runInputs (stp : Val → Trace → List String × Trace) : List Val → Trace → List String × Trace
   | [], tr => ([], tr)
